@@ -7,6 +7,7 @@ def run(ctx):
     cli.rule_dispatch(ctx, 'skeptical')
     accept.rule_membership_answers(ctx, 'skeptical')
     accept.rule_list_quantifiers(ctx, 'skeptical')
+    accept.rule_status_certificate_pairing(ctx, 'skeptical')
     accept.rule_every_listed_argument(ctx, 'skeptical')
     accept.rule_no_shortcut_with_certificate(ctx)
     accept.rule_certificate_shapes(ctx, 'skeptical')
@@ -19,6 +20,7 @@ def run(ctx):
     progress.rule_state_machine(ctx)
     accept.rule_stage_layering(ctx, 'skeptical')
     grounded.rule_grounded_propagation(ctx)
+    accept.rule_in_all_flags_polarity(ctx)
     cli.rule_encoder_selection(ctx)  # the CLI hands each solver the encoder of its base semantics, for every --encoding value
     ctx.assume("rustc's MIR and resolved callees; the tables stated in the property (DS-CO through the grounded solver)")
     return (
